@@ -186,6 +186,50 @@ func (e *Engine) evalRule(r *StructRule) []*Obligation {
 			out = append(out, e.structObl(r, fnk, ok, msg))
 		}
 		return out
+	case "callers":
+		// callers Func allowed=F,G,.. : in this package only the listed functions (and the closures
+		// inside them) call Func directly.
+		allowed := map[string]bool{}
+		for _, a := range ruleOpt(r, "allowed") {
+			allowed[a] = true
+		}
+		var out []*Obligation
+		for _, target := range pos {
+			tfn := e.funcs[r.Pkg+"::"+target]
+			if tfn == nil {
+				out = append(out, e.structObl(r, target, false, "function not found"))
+				continue
+			}
+			var bad []string
+			n := 0
+			for _, fn := range e.pkgFunctions(r.Pkg) {
+				root := fn
+				for root.Parent() != nil {
+					root = root.Parent()
+				}
+				for _, b := range fn.Blocks {
+					for _, in := range b.Instrs {
+						ci, ok := in.(ssa.CallInstruction)
+						if !ok {
+							continue
+						}
+						if cal := ci.Common().StaticCallee(); cal != nil && (cal == tfn || cal.Origin() == tfn) {
+							n++
+							if !allowed[e.fnKey[root]] && !allowed[e.fnKey[fn]] {
+								bad = append(bad, e.fnKey[fn])
+							}
+						}
+					}
+				}
+			}
+			sort.Strings(bad)
+			if len(bad) > 0 {
+				out = append(out, e.structObl(r, target, false, "called outside the allowed functions: "+strings.Join(bad, ", ")))
+			} else {
+				out = append(out, e.structObl(r, target, true, fmt.Sprintf("%d call sites, all in the %d allowed functions", n, len(allowed))))
+			}
+		}
+		return out
 	case "recovers":
 		var out []*Obligation
 		for _, fnk := range pos {
